@@ -20,8 +20,8 @@ from ..engine import REPO, lean_list, lean_str
 MODULES = ["Iodata.Props.C05"]
 RULE = (
     "random true wavefunctions (1-3 atoms, 1-4 segmented shells per atom, s..g Cartesian or pure and pure h, 1-3 "
-    "primitives, restricted/unrestricted COMPLETE orbital sets obtained by Loewdin-orthonormalising random matrices "
-    "with the harness's own overlap evaluator, min overlap eigenvalue >= 2e-3) x vendor encoding written by an "
+    "primitives, restricted/unrestricted COMPLETE orbital sets = Loewdin orbitals S^-1/2 times a random orthogonal matrix, "
+    "S from the harness own overlap evaluator, min overlap eigenvalue >= 2e-3, orthonormal to 1e-11) x vendor encoding by an "
     "independent encoder (standard, ORCA, PSI4<=1.0, Turbomole, CFOUR 2.1, unnormalised contractions, PSI4<=1.3.2 with "
     "and without unnormalised contractions) x {Molden AU, Molden Angs, MKL} x norm_threshold in {default,1e-3,1e-5,1e-6} "
     "x 12/14/17 significant digits; plus corrupted encodings (per-primitive scale errors in contracted shells, per-row "
